@@ -377,14 +377,32 @@ static void g_os(void) {
     int (*getenv_s_)(size_t *, char *, size_t, const char *, size_t) = dlsym(L, "_getenv_s_chk");
     char *(*gets_s_)(char *, size_t, size_t) = dlsym(L, "_gets_s_chk");
     if (!strerror_s_ || !asctime_s_ || !ctime_s_ || !gmtime_s_ || !localtime_s_ || !getenv_s_ || !gets_s_) { fprintf(stderr, "missing os symbols\n"); exit(2); }
-    int errs[] = { 0, 2, 34, 400, 403, 410, 411, 9999, -1 };
-    for (int ei = 0; ei < 9; ei++) { char ref[128]; snprintf(ref, sizeof ref, "%s", strerror(errs[ei] >= 400 && errs[ei] <= 410 ? 0 : errs[ei]));
-        for (size_t dmax = 0; dmax <= 48; dmax += (dmax < 30 ? 1 : 6)) for (int extra = 0; extra < 2; extra++) {
-            char rel[64]; snprintf(rel, sizeof rel, "%s,%s", dmax == 0 ? "dmax0" : dmax < 16 ? "small" : "large", errs[ei] >= 400 && errs[ei] <= 410 ? "safeclib-code" : "errno");
-            begin("strerror_s", rel, "strerror %d %zu %d", errs[ei], dmax, extra);
+    /* strerror_s: every errno of this libc, every code of the library's own (400..) with both neighbours, out-of-range numbers; the full text
+       is what an ample call delivers (for errnos it must be strerror's); strerrorlen_s must announce exactly its length; around that length
+       the result is the whole text or, as documented, dmax-4 characters of it followed by "..." */
+    size_t (*strerrorlen_s_)(int) = dlsym(L, "strerrorlen_s");
+    if (!strerrorlen_s_) { fprintf(stderr, "missing strerrorlen_s\n"); exit(2); }
+    for (int e = -1; e <= 10000; e++) {
+        if (e > 135 && e < 398) continue; if (e > 414 && e < 9999) continue;
+        int own = e >= 400 && e <= 410; char full[160] = "", ref[160];
+        { char *d = mkdest(128, 1, 0); int r = -1; begin("strerror_s", "ample", "strerror-full %d", e); CALL(r = strerror_s_(d, 128, e, BOSU)); if (!fault && r == 0) snprintf(full, sizeof full, "%s", d); }
+        size_t flen = strlen(full), alen = strerrorlen_s_(e);
+        snprintf(ref, sizeof ref, "%s", strerror(e));
+        if (P == 6) {
+            begin("strerror_s", e >= 400 && e <= 414 ? "safeclib-code" : "errno", "strerror-len %d", e);
+            if (alen != flen) report("strerrorlen_s-differs-from-the-text");
+            else if (!(e >= 400 && e <= 414) && strcmp(full, ref)) report("wrong-result");
+        }
+        size_t dms[12] = { 0, 1, 2, 3, 4, 5, flen > 1 ? flen - 1 : 6, flen, flen + 1, flen + 2, 48, alen + 1 };
+        for (int di = 0; di < 12; di++) for (int extra = 0; extra < 2; extra++) {
+            size_t dmax = dms[di]; int dup = 0; for (int k = 0; k < di; k++) if (dms[k] == dmax) dup = 1; if (dup) continue;
+            if (e > 135 && !(e >= 398 && e <= 414) && di > 5 && di != 10) continue;
+            char rel[64], want[160]; snprintf(rel, sizeof rel, "%s,%s", dmax == 0 ? "dmax0" : dmax <= 3 ? "dmax<=3" : dmax <= flen ? "text>=dmax" : "fits", own ? "safeclib-code" : "errno");
+            begin("strerror_s", rel, "strerror %d %zu %d", e, dmax, extra);
             char *d = mkdest(dmax, 1, extra ? 3 : 0); int r = 0;
-            CALL(r = strerror_s_(d, dmax, errs[ei], BOSU));
-            if (!(errs[ei] >= 400 && errs[ei] <= 410) && strlen(ref) < dmax) exp_str = ref;
+            CALL(r = strerror_s_(d, dmax, e, BOSU));
+            if (flen && flen < dmax) exp_str = full;
+            else if (flen && dmax > 3) { snprintf(want, sizeof want, "%.*s...", (int)(dmax - 4), full); exp_str = want; }
             judge(dmax > 0, r != 0, r, SP, 1);
         } }
     /* asctime_s / ctime_s */
